@@ -450,6 +450,20 @@ class IRGenerator:
                             item.lineno, item.path)
                     env[item.target] = imported_env
 
+    @staticmethod
+    def _symbol_location(existing):
+        """
+        Returns 'path:lineno' of the definition of a symbol found in an
+        environment. Routes are stored grouped by version, and built-in types
+        have no definition in a spec.
+        """
+        if isinstance(existing, ApiRoutesByVersion):
+            existing = existing.at_version[min(existing.at_version)]
+        ast_node = getattr(existing, '_ast_node', None)
+        if ast_node is None:
+            return 'built-in'
+        return '%s:%d' % (ast_node.path, ast_node.lineno)
+
     def _create_alias(self, env, item):
         # NOTE: I don't like supporting forward references for aliases
         # because it makes specs harder to read. But we have to so that if a
@@ -458,9 +472,9 @@ class IRGenerator:
         if item.name in env:
             existing_dt = env[item.name]
             raise InvalidSpec(
-                'Symbol %s already defined (%s:%d).' %
-                (quote(item.name), existing_dt._ast_node.path,
-                existing_dt._ast_node.lineno), item.lineno, item.path)
+                'Symbol %s already defined (%s).' %
+                (quote(item.name), self._symbol_location(existing_dt)),
+                item.lineno, item.path)
 
         namespace = self.api.ensure_namespace(env.namespace_name)
         alias = Alias(item.name, namespace, item)
@@ -472,9 +486,9 @@ class IRGenerator:
         if item.name in env:
             existing_dt = env[item.name]
             raise InvalidSpec(
-                'Symbol %s already defined (%s:%d).' %
-                (quote(item.name), existing_dt._ast_node.path,
-                existing_dt._ast_node.lineno), item.lineno, item.path)
+                'Symbol %s already defined (%s).' %
+                (quote(item.name), self._symbol_location(existing_dt)),
+                item.lineno, item.path)
 
         namespace = self.api.ensure_namespace(env.namespace_name)
 
@@ -505,9 +519,9 @@ class IRGenerator:
         if item.name in env:
             existing_dt = env[item.name]
             raise InvalidSpec(
-                'Symbol %s already defined (%s:%d).' %
-                (quote(item.name), existing_dt._ast_node.path,
-                existing_dt._ast_node.lineno), item.lineno, item.path)
+                'Symbol %s already defined (%s).' %
+                (quote(item.name), self._symbol_location(existing_dt)),
+                item.lineno, item.path)
 
         namespace = self.api.ensure_namespace(env.namespace_name)
 
@@ -552,9 +566,9 @@ class IRGenerator:
         if item.name in env:
             existing_dt = env[item.name]
             raise InvalidSpec(
-                'Symbol %s already defined (%s:%d).' %
-                (quote(item.name), existing_dt._ast_node.path,
-                 existing_dt._ast_node.lineno), item.lineno, item.path)
+                'Symbol %s already defined (%s).' %
+                (quote(item.name), self._symbol_location(existing_dt)),
+                item.lineno, item.path)
         namespace = self.api.ensure_namespace(env.namespace_name)
         if isinstance(item, AstStructDef):
             try:
@@ -1266,9 +1280,8 @@ class IRGenerator:
             else:
                 existing_dt = env[item.name]
                 raise InvalidSpec(
-                    'Symbol %s already defined (%s:%d).' % (
-                        quote(item.name), existing_dt._ast_node.path,
-                        existing_dt._ast_node.lineno),
+                    'Symbol %s already defined (%s).' % (
+                        quote(item.name), self._symbol_location(existing_dt)),
                     item.lineno, item.path)
         else:
             env[item.name] = ApiRoutesByVersion()
